@@ -415,7 +415,7 @@ def _mirsym():
     add("C03.b/encode_float", "C03", "mirsym", Q,
         "Codec::encode_float translates a float WHERE constant into the encoding domain of an offset-/narrow-encoded integer column such that all six comparisons `e as f64 OP encode_float(c)` agree with the mathematically exact comparison of the decoded value e + y with c",
         ["mem_store::codec::Codec::encode_float"],
-        bounds="codecs [Add(T, y)] and [ToI64(T)] for T in {u8,u32} (quick) + u16 (thorough); all encoded values e: T; mode grid: constants k/2^10 with |k| < 2^51 and offsets |y| < 2^41 (every f64 operation exact); mode full: every non-NaN f64 constant, every offset with e + y representable",
+        bounds="codecs [Add(T, y)] and [ToI64(T)] for T = u8 (quick) + u16, u32 (thorough); all encoded values e: T; mode grid: constants k/2 with |k| < 2^12 and offsets |y| < 2^8 (quick) / k/4, |k| < 2^16, |y| < 2^10 (thorough) - every f64 operation exact there, f64 unsat proofs cost 15-45 s each whatever the domain; mode full (T = u8): every non-NaN f64 constant, every offset with e + y representable",
         spec=sop_.EncodeFloatSpec(), assumptions=["the comparison kernels compare `e as f64` with the translated constant (C03.a of64 instantiations)"])
 
     add("C15.a/subpartition_loaded", "C15", "mirsym", Q,
